@@ -204,7 +204,7 @@ var c06ValueAllow = map[string]string{
 }
 
 func C06(ctx *core.Ctx, r *core.Report) {
-	r.Explanation = "Grammar lint over parser/parser.y (every value-carrying symbol of every production reaches the builder or $$; enumerator alternatives have actions; string tokens reach the builder only through the canonical decoder; net builder-stack effect of every production is balanced and consistent; extension keyword literals agree with the statement's keyword; lexer keyword table and %token list agree), plus builder rules (no add* error dropped, every stored field has an exported reader) and order rules (no order-sensitive effect inside iteration over a map on the load path; sibling collections keep order). Not decided: the lexer's string scanning itself (escapes, indentation stripping, '+' concatenation results), comment placement."
+	r.Explanation = "Grammar lint over parser/parser.y (every value-carrying symbol of every production reaches the builder or $$; enumerator alternatives have actions; string tokens reach the builder only through the canonical decoder; net builder-stack effect of every production is balanced and consistent; extension keyword literals agree with the statement's keyword; lexer keyword table and %token list agree), plus builder rules (no add* error dropped, every stored field has an exported reader) and order rules (no order-sensitive effect inside iteration over a map on the load path; sibling collections keep order). Text is decoded once (tokenString/trimQuotes only on raw tokens, D8); a fallible Builder result that is pushed on the parser stack is followed by the LastErr check that abandons the parse (D9); Builder methods return freshly built objects. Not decided: the lexer's string scanning itself (escapes, indentation stripping, '+' concatenation results), comment placement."
 	g := loadGrammar(ctx, r, "parser/parser.y")
 	if g == nil {
 		return
